@@ -4,11 +4,15 @@
 -/
 import Driver.Util
 import Driver.ElimTree
+import Driver.Sampling
+import Driver.Phantoms
 open Lean Shangrla Shangrla.Drv
 
 def dispatch (g op : String) (a : Json) : R Json :=
   match g with
   | "elimtree" => ElimTreeH.handle op a
+  | "sampling" => SamplingH.handle op a
+  | "phantoms" => PhantomsH.handle op a
   | _ => throw s!"unknown group {g}"
 
 def handleLine (line : String) : String :=
